@@ -24,7 +24,22 @@ func genC14(t *rapid.T) *Script {
 	g.logged, g.sent = true, 1
 	n := rapid.IntRange(1, 12).Draw(t, "nSteps")
 	elapsed := int64(0)
+	sinceIn := int64(0) // virtual time since the peer last sent something
 	for i := 0; i < n; i++ {
+		if k := len(sc.Steps) - 1; k >= 0 && (sc.Steps[k].Op == "in" || sc.Steps[k].Op == "burst") {
+			sinceIn = 0
+		}
+		if rapid.IntRange(0, 19).Draw(t, "probeFirst") == 0 {
+			// the peer stays silent until the session has sent its own TestRequest
+			// and then sends one itself before anything else
+			T := int64(tolT(g.hb))
+			// total silence T + T/10 + 1 ms: the probe is out, the disconnect (not before 2T) is not due
+			sc.Steps = append(sc.Steps, rig.Step{Op: "advance", Dt: T + T/10 + 1e6 - sinceIn})
+			id, _ := genTestReqID(t)
+			sc.Steps = append(sc.Steps, rig.Step{Op: "in", In: g.testRequest(id), Kind: "while-probing"})
+			elapsed = 0
+			continue
+		}
 		switch k := rapid.IntRange(0, 9).Draw(t, "stepKind"); {
 		case k < 4:
 			id, _ := genTestReqID(t)
@@ -63,6 +78,7 @@ func genC14(t *rapid.T) *Script {
 			if room > 0 {
 				dt := rapid.Int64Range(1, room).Draw(t, "dt")
 				elapsed += dt
+				sinceIn += dt
 				sc.Steps = append(sc.Steps, rig.Step{Op: "advance", Dt: dt})
 			}
 		}
@@ -141,6 +157,9 @@ func checkC14(sc *Script, rec *evid.Rec) (vs []pbt.Violation) {
 			nontrivial = true
 		}
 		shape += fmt.Sprintf("|%s:%d:%s", st.Op, len(reqs), class)
+		if st.Kind == "while-probing" {
+			rec.Hist("testrequest-while-awaiting-own-probe-answer")
+		}
 		if len(hbIdx) != len(reqs) {
 			vs = append(vs, pbt.V("answer-count", "step %d: %d TestRequest(s) received, %d Heartbeat answer(s) emitted:%s", i, len(reqs), len(hbIdx), showOut(res)))
 			continue
